@@ -34,6 +34,10 @@ def glue(spec):
     body += "    let mk = || <%s as strum::IntoEnumIterator>::iter();\n" % spec.ty()
     body += "    vmon::iter::check_list(m, &mk, %d, &make, <%s as strum::EnumCount>::COUNT, %s);\n" % (
         len(en), spec.ty(), "true" if nontrivial else "false")
+    # the same list seen through clones, both ends and adapters (cheap depth-2 lock-step exploration)
+    if len(en) <= 12:
+        body += "    vmon::iter::explore(m, &mk, %d, &make, 2, 20, \"debug\");\n" % len(en)
+        body += "    vmon::iter::adapters(m, &mk, %d, &make, \"debug\");\n" % len(en)
     body += "}\n"
     return body
 
@@ -60,10 +64,10 @@ def corpus(run):
                 k += 1
     # seeded part
     r = gen.rng_for(run.seed, "c04-seeded")
-    for _ in range(600 if thorough else 120):
+    for _ in range(3000 if thorough else 600):
         n = r.choice([0, 1, 2, 3, 4, 5, 6, 8, 12])
         mask = [r.random() < 0.3 for _ in range(n)]
-        specs.append(build_enum(r, "E%d" % k, n, mask, generics=r.choice([None, None, None, "T", "N", "TU"])))
+        specs.append(build_enum(r, "E%d" % k, n, mask, generics=r.choice([None, None, None, "T", "N", "TU", "Tdef", "TNdef", "Tw"])))
         k += 1
     for n in ([64, 300] if thorough else [64]):
         mask = [r.random() < 0.2 for _ in range(n)]
